@@ -66,6 +66,10 @@ type Action struct {
 	// fault: the store works again for the next request). Whatever the node answers, only an accepted request may
 	// ever take effect.
 	UnpubFault bool `json:"unpublishedStoreFault,omitempty"`
+	// Recommits: an update that names a commitment its own chain has already consumed as its next update commitment.
+	// The state machine skips such an operation wherever it is anchored; the client notices and retries with the same
+	// key and a fresh commitment, so a valid operation for the commitment follows the skipped one.
+	Recommits bool `json:"recommitsConsumed,omitempty"`
 	// acceptedUnder (run time): genesis time of the protocol version in force when the request was accepted
 	acceptedUnder uint64
 }
@@ -749,6 +753,7 @@ type clientDID struct {
 	upd, rec *keys.Key
 	dead     bool
 	n        int
+	pastUpd  []*keys.Key // update keys revealed (consumed) since the create / the last recover
 }
 
 // sigOf gives failures that belong to a recorded known finding their own signature.
@@ -760,7 +765,7 @@ func sigOf(kind, msg string) string {
 }
 
 func TestPipeline(t *testing.T) {
-	ev.Rule(chk, "rapid workloads over the whole pipeline made of real parts ((REST operations endpoint ->) DocumentHandler -> batch.Writer driven through the verif hook -> OperationHandler -> in-memory CAS -> recording ledger assigning time, non-monotone number, canonical and equivalent references -> Observer -> TxnProcessor -> operation store -> OperationProcessor -> didtransformer): 1-5 DIDs, 3-25 client operations (create / update / recover / deactivate with patch lists over all eight actions, all key types), drawn flush points (monitor / timeout ticks), maxOperationCount 1-4, operations submitted while an earlier one for the DID is still queued, signed anchoring windows (open, closed, and ending 0-3 ledger ticks after submission so that the flush point decides whether the operation lands inside, exactly at the end of or after its window), one or two protocol versions (second one with sha2-512 first, fewer patch actions, later genesis time), with and without an unpublished-operation store (one submission in eight then meets a store that fails for that one request; the client retries with the same key), with and without two method contexts on the transformers, one node in three with a label / domain for interim DIDs and / or an alias namespace (resolutions then ask by turns for the plain DID, the DID under the alias and - long-form only - the DID with the label as hint; the DID string of an answer may be any spelling that names the suffix under the namespace or alias); every result the node hands out stays held (last 16) and must not change while later requests are served; oracle: every stored operation carries the protocol version that was in force when it was accepted; after every flush and at the end every DID resolves (ResolveDocument) to the kit/refdoc + reference prediction over its accepted operations in anchoring order (document projection, commitments, deactivated, published flag and canonical id once anchored); create response == long-form resolution before anchoring == short-form resolution after anchoring (modulo the DID string); non-trivial = a DID with >= 3 applied operations including a recover or deactivate, or an operation submitted while another is queued, or a version switch")
+	ev.Rule(chk, "rapid workloads over the whole pipeline made of real parts ((REST operations endpoint ->) DocumentHandler -> batch.Writer driven through the verif hook -> OperationHandler -> in-memory CAS -> recording ledger assigning time, non-monotone number, canonical and equivalent references -> Observer -> TxnProcessor -> operation store -> OperationProcessor -> didtransformer): 1-5 DIDs, 3-25 client operations (create / update / recover / deactivate with patch lists over all eight actions, all key types), drawn flush points (monitor / timeout ticks), maxOperationCount 1-4, operations submitted while an earlier one for the DID is still queued, signed anchoring windows (open, closed, and ending 0-3 ledger ticks after submission so that the flush point decides whether the operation lands inside, exactly at the end of or after its window), one or two protocol versions (second one with sha2-512 first, fewer patch actions, later genesis time), with and without an unpublished-operation store (one submission in eight then meets a store that fails for that one request; the client retries with the same key), one update in eight of a DID with earlier updates names a commitment its chain has already consumed as its next one (skipped by the state machine; the client retries with the same key, so a valid operation for the commitment is anchored behind the skipped one), with and without two method contexts on the transformers, one node in three with a label / domain for interim DIDs and / or an alias namespace (resolutions then ask by turns for the plain DID, the DID under the alias and - long-form only - the DID with the label as hint; the DID string of an answer may be any spelling that names the suffix under the namespace or alias); every result the node hands out stays held (last 16) and must not change while later requests are served; oracle: every stored operation carries the protocol version that was in force when it was accepted; after every flush and at the end every DID resolves (ResolveDocument) to the kit/refdoc + reference prediction over its accepted operations in anchoring order (document projection, commitments, deactivated, published flag and canonical id once anchored); create response == long-form resolution before anchoring == short-form resolution after anchoring (modulo the DID string); non-trivial = a DID with >= 3 applied operations including a recover or deactivate, or an operation submitted while another is queued, or a version switch")
 	ev.Rapid(t, chk, 200, 1500, func(t *rapid.T) {
 		c := &Case{Max: uint(rapid.IntRange(1, 4).Draw(t, "max")), TwoVersions: rapid.Bool().Draw(t, "twoVersions"), Unpublished: rapid.Bool().Draw(t, "unpublishedStore"), MethodContexts: rapid.Bool().Draw(t, "methodContexts"), ViaREST: rapid.Bool().Draw(t, "viaRest")}
 		if rapid.IntRange(0, 2).Draw(t, "handlerNaming") == 0 {
@@ -838,6 +843,11 @@ func TestPipeline(t *testing.T) {
 				switch typ {
 				case "update":
 					next := keys.Get(kt, fmt.Sprintf("c20-%d", di), 10+cl.n)
+					if len(cl.pastUpd) > 0 && rapid.IntRange(0, 7).Draw(t, "recommitsConsumed") == 0 {
+						next = rapid.SampledFrom(cl.pastUpd).Draw(t, "consumedKey")
+						a.Recommits = true
+						p.feat["recommits-consumed-commitment"] = true
+					}
 					a.Patches = gen.ValidPatches(t, 3, gen.PatchOpts{Actions: []string{"add-public-keys", "remove-public-keys", "add-services", "remove-services", "add-also-known-as", "remove-also-known-as", "ietf-json-patch"}})
 					if rapid.IntRange(0, 11).Draw(t, "keyMaterialMismatch") == 0 {
 						// a key whose type demands other key material than its JWK holds: the node may refuse the request, but
@@ -878,13 +888,18 @@ func TestPipeline(t *testing.T) {
 			if !accepted {
 				continue // client state advances only for accepted operations
 			}
+			if act.Recommits {
+				continue // skipped by the state machine: the client retries with the same key
+			}
 			kt := cl.upd.Type
 			switch act.Type {
 			case "create":
 				clients[di] = cl
 			case "update":
+				cl.pastUpd = append(cl.pastUpd, cl.upd)
 				cl.upd = keys.Get(kt, fmt.Sprintf("c20-%d", di), 10+cl.n)
 			case "recover":
+				cl.pastUpd = nil
 				cl.upd, cl.rec = keys.Get(kt, fmt.Sprintf("c20-%d", di), 100+cl.n), keys.Get(kt, fmt.Sprintf("c20-%d", di), 200+cl.n)
 			case "deactivate":
 				cl.dead = true
